@@ -1,0 +1,43 @@
+//go:build verif
+
+package homescript
+
+// Contracts checked by /verif/hvc (build tag verif only; see /verif/DESIGN.md).
+//
+// Blocking builtins of the executors shipped with the repository (C10): a
+// `sleep` naps in slices and polls the cancellation context before every
+// slice, so a cancelled run is noticed after at most one slice.
+// ghost(napped) is the time slept since the context was last polled:
+// time.Sleep adds its argument, a poll resets it.
+
+/*@ func checkCancelationVM
+    serves C10
+    requires ctx != nil && *ctx != nil
+    ghostset napped = 0
+    ensures @cancellation-is-seen cancelled(*ctx) <==> result != nil
+@*/
+
+/*@ func checkCancelationTree
+    serves C10
+    requires ctx != nil && *ctx != nil
+    ghostset napped = 0
+    ensures @cancellation-is-seen cancelled(*ctx) <==> result != nil
+@*/
+
+/*@ func TestingVmScopeAdditions["sleep"]
+    serves C10
+    assume-safety
+    assumepre checkCancelationVM
+    ensures @naps-are-short ghost(napped) == old(ghost(napped)) || ghost(napped) <= 10000000
+    loop 1 invariant ghost(napped) == entry(ghost(napped)) || ghost(napped) <= 10000000
+    loop 1 progress @poll-before-every-nap ghost(napped) <= 10000000
+@*/
+
+/*@ func TestingInterpreterScopeAdditions["sleep"]
+    serves C10
+    assume-safety
+    assumepre checkCancelationTree
+    ensures @naps-are-short ghost(napped) == old(ghost(napped)) || ghost(napped) <= 10000000
+    loop 1 invariant ghost(napped) == entry(ghost(napped)) || ghost(napped) <= 10000000
+    loop 1 progress @poll-before-every-nap ghost(napped) <= 10000000
+@*/
